@@ -218,6 +218,8 @@ def _prep_file(task):
             res['cross'].append(dict(key='%s|solo-does-not-terminate' % _kind(op), op=op, check='solo execution exceeded its budget',
                                      expected='terminates', observed=str(full[-1])))
             continue
+        if _kind(op) == 'cu_at_stale' and not (full and _is_exc(full[-1], True)):
+            continue        # the stale offset happens to parse as a unit header: an accepted out-of-domain call is not judged
         res['pool'].append(op)
         res['refs'][key] = [cdigest(o) for o in full]
         res['ticks'][key] = ticks
@@ -471,12 +473,12 @@ def prepare(prop, tier, seed, only=None, context=None):
 # where one query can change the answer of another, so they are covered systematically instead of by chance
 GROUPS = {
     'type units': ['tu_iter', 'tu_by_sig', 'die_by_sig', 'tu_die_iter', 'session:tu'],
-    'unit list': ['cu_iter', 'cu_at', 'cu_containing', 'cu_containing_seq', 'die_at_info', 'lut_die', 'die_top', 'session:cu', 'aranges_lookup',
+    'unit list': ['cu_iter', 'cu_at', 'cu_at_stale', 'cu_containing', 'cu_containing_seq', 'die_at_info', 'lut_die', 'die_top', 'session:cu', 'aranges_lookup',
                   'tu_iter', 'die_by_sig'],
     'entry lists': ['die_iter', 'die_at', 'die_children', 'die_siblings', 'die_parent', 'die_parent_chain', 'die_path', 'die_ref', 'die_top',
                     'session:die', 'die_at_info', 'session:cu'],
     'abbreviations and strings': ['abbrev', 'str_table', 'linestr', 'addr_get', 'die_at', 'die_top'],
-    'line programs': ['lineprog_seq', 'session:lineprog', 'die_path'],
+    'line programs': ['lineprog_seq', 'session:lineprog', 'die_path', 'lineprog_after'],
     'call frames': ['cfi_entries', 'cfi_decoded_seq', 'session:cfi'],
     'location lists': ['loc_at', 'loc_iter', 'loc_cus', 'loc_attr'],
     'range lists': ['rng_at', 'rng_at_ex', 'rng_iter', 'rng_cus', 'rng_cu_lists_ex'],
